@@ -243,6 +243,32 @@ func (p c02) Run(w *mon.Worker, idx int) mon.Result {
 		if doc.K != ref.Map {
 			doc = ref.MapV(ref.KV{K: "a", V: doc})
 		}
+		if idx%3 == 0 {
+			// several keys in one bracket, some there and some not: every listed key holds the value afterwards
+			m := ref.MapV(ref.KV{K: "ka", V: ref.IntV(1)}, ref.KV{K: "kc", V: ref.SeqV(ref.IntV(3))})
+			wdoc := ref.MapV(ref.KV{K: "m", V: m}, ref.KV{K: "rest", V: doc})
+			keys := [][]string{{"ka", "zz_b"}, {"zz_b", "ka"}, {"ka", "zz_b", "kc"}, {"zz_a", "zz_b"}, {"ka", "kc"}, {"zz_b", "kc", "zz_c"}}[r.IntN(6)]
+			v := ref.IntV(int64(90 + r.IntN(9)))
+			op := []string{"=", "|="}[r.IntN(2)]
+			expr := fmt.Sprintf(`.m["%s"] %s %s`, strings.Join(keys, `", "`), op, v.JSON())
+			cs["expr"], cs["doc"] = expr, wdoc.JSON()
+			want := wdoc.Copy()
+			for _, k := range keys {
+				_ = ref.SetPath(want, []any{"m", k}, v)
+			}
+			got, _, yerr := evalDoc(expr, wdoc)
+			res.Evals++
+			res.Nontrivial = true
+			res.Tags = append(res.Tags, "multi_key_bracket")
+			res.Sig = fmt.Sprintf("multikey|%v|%s|%x", keys, op, doc.ShapeHash())
+			if yerr != nil {
+				return fail("`%s` failed: %v", expr, yerr)
+			}
+			if got == nil || !ref.EqualNum(got, want) {
+				return fail("`%s`\n expected %s\n observed %s", expr, want, got)
+			}
+			return hold("every listed key written")
+		}
 		sv := []string{"5", "true", "null", "1.5", "0x10", "~", "", "text"}[r.IntN(8)]
 		mid := []string{"n1", "q"}[r.IntN(2)]
 		deep := []string{".k", ".k.j", "[1]", ".k[0]"}[r.IntN(4)]
